@@ -107,8 +107,8 @@ impl World for Gas {
     }
     fn default_runs(&self, _prop: &str, tier: Tier) -> u64 {
         match tier {
-            Tier::Quick => 6000,
-            Tier::Thorough => 600_000,
+            Tier::Quick => 20_000,
+            Tier::Thorough => 12_000_000,
         }
     }
     fn nontrivial_min_ops(&self, _prop: &str) -> u64 {
